@@ -32,7 +32,7 @@ func init() {
 		MaxSteps:     400000,
 		YieldFiles:   []string{"ss2022/stream.go", "ss2022/tcp.go"},
 		QuickRuns:    8000,
-		ThoroughSecs: 600,
+		ThoroughSecs: 400,
 		Rule: "one run = one generated configuration (cipher, single/multi-user, prefixes, segmented-header allowance, target kind, " +
 			"initial payload length, per-side write-size and read-buffer scripts, copy paths, transport segmentation/latency/send-buffer knobs) " +
 			"executed under one seeded schedule; non-trivial = data flowed in at least one direction AND (a transport read was fragmented OR a " +
